@@ -100,7 +100,7 @@ def run_config(ctx, config):
 
 
 def run(ctx):
-    for config in ("f64-all", "dec-all"):
+    for config in ("f64-all", "dec-all") + (("f64-nostd", "dec-nostd") if ctx.tier == "thorough" else ()):
         run_config(ctx, config)
     ctx.rule_text = "record axioms per impl Quantity; 5 scalar/unit operator forms + output types per quantity type; the dimensionless impls"
     ctx.trusted = ["rustc THIR construction and trait resolution", "the amount type's own * and / (each form contains at most one such node on the operands)"]
